@@ -417,8 +417,10 @@ def _report(pid, tier, seed, results, reg, wall):
     n_ok = sum(1 for o in obligations if o["result"] == "proved")
     n_known = sum(1 for o in obligations if o["result"] == "known-finding")
     bounded_res = [r for r in results if r.get("bounded")]
-    os.makedirs(os.path.join(VERIF, "evidence"), exist_ok=True)
-    os.makedirs(os.path.join(VERIF, "replays"), exist_ok=True)
+    EVDIR = os.environ.get("PYVC_EVIDENCE_DIR") or os.path.join(VERIF, "evidence")
+    RPDIR = os.path.join(os.path.dirname(EVDIR), "replays") if os.environ.get("PYVC_EVIDENCE_DIR") else os.path.join(VERIF, "replays")
+    os.makedirs(EVDIR, exist_ok=True)
+    os.makedirs(RPDIR, exist_ok=True)
     lines = []
     # replay files
     for v in violations:
@@ -427,7 +429,7 @@ def _report(pid, tier, seed, results, reg, wall):
         rel = f"replays/{pid}-{safe}-{hsh}.json"
         v["repo_head"], v["repo_dirty"] = head, dirty
         v["command"] = f"./check {pid} --replay {rel}"
-        with open(os.path.join(VERIF, rel), "w") as f:
+        with open(os.path.join(os.path.dirname(RPDIR), rel), "w") as f:
             json.dump(v, f, indent=1, default=str)
         tail = "" if v.get("replayed") else " no-failing-input-found"
         lines.append(f"VIOLATION property={pid} replay={rel}{tail}")
@@ -473,7 +475,7 @@ def _report(pid, tier, seed, results, reg, wall):
     ev = {"property_id": pid, "tier": tier, "seed": seed, "level": level, "coverage": cov,
           "assumptions": trusted + [f"model:{m}" for m in sorted(models_used)],
           "wall_s": round(wall, 2), "violations": len(violations)}
-    with open(os.path.join(VERIF, "evidence", f"{pid}.json"), "w") as f:
+    with open(os.path.join(EVDIR, f"{pid}.json"), "w") as f:
         json.dump(ev, f, indent=1, default=str)
     return {"lines": lines, "violations": violations, "errors": errors, "undecided": undecided, "n_ob": n_ob, "n_ok": n_ok,
             "n_known": n_known, "obligations": obligations, "bounded": bounded_res, "level": level, "wall": wall}
